@@ -278,7 +278,7 @@ func genWorld(t *rapid.T) world.World {
 				rv.Deprecation = &struct {
 					Reason string `json:"reason"`
 					Link   string `json:"link"`
-				}{rapid.SampledFrom([]string{"use something newer than " + v, "use something newer than " + v, "", "x"}).Draw(t, "reason"), rapid.SampledFrom([]string{"https://example.com/d/" + v, "https://example.com/d/" + v, ""}).Draw(t, "link")}
+				}{rapid.SampledFrom([]string{"use something newer than " + v, "use something newer than " + v, "", "x", "two lines about " + v + "\nthe second one\n", "  indented note on " + v}).Draw(t, "reason"), rapid.SampledFrom([]string{"https://example.com/d/" + v, "https://example.com/d/" + v, "", " https://example.com/padded "}).Draw(t, "link")}
 			}
 			rp.Versions = append(rp.Versions, rv)
 		}
